@@ -400,6 +400,9 @@ def order_extra(pid, inner=None):
         binary, seed, tier = ctx["binary"], ctx["seed"], ctx["tier"]
         plan = [(1, 1, 8, 100), (2, 1, 8, 100), (4, 2, 8, 100), (2, 4, 8, 100)] if tier == "quick" else \
                [(t, q, 40, 200) for t in (1, 2, 4, 8) for q in (1, 2, 4)]
+        if pid == "C04":
+            # many callers drawing key ids at the same moment: every key is deleted again, so no weight may be left
+            plan = [(8, 4, 8, 100), (16, 8, 6, 100)] if tier == "quick" else [(t, q, 30, 200) for t in (4, 8, 16) for q in (2, 8)]
         runs = []
         for n, (threads, queue, rounds, keys) in enumerate(plan):
             args = ["order", str(threads), str(queue), str(rounds), str(keys), str(seed + 200 + n)]
@@ -422,6 +425,9 @@ def order_extra(pid, inner=None):
                                             what="%d per-key programs of one thread ended differently from their call order, e.g. %s" % (d["violation_count"], json.dumps(d["violations"][:1]))))
             if d["unanswered"]:
                 res["failures"].append(dict(rep, signature="acknowledgement-unanswered", no_shrink=True, observed=d, what="%d acknowledgements were not completed within 20 s" % d["unanswered"]))
+            if d.get("weight_left", 0) != 0 and not d["unanswered"]:
+                res["failures"].append(dict(rep, signature="weight-left-after-deleting-everything", no_shrink=True, observed=d,
+                                            what="every key put by the %d concurrent callers was deleted again and every delete acknowledged, yet the total weight used is %d, not 0" % (threads, d["weight_left"])))
         res["extra"]["order_runs"] = runs
         res["rule"] += "; plus %d free-running program-order runs (threads x queue %s)" % (len(plan), sorted({(t, q) for t, q, _, _ in plan}))
     return extra
@@ -560,7 +566,7 @@ PROPS.update({
                              "overflow-checking (debug) profile"]),
     "C03": dict(module="C03", modules=["C03", "C03_micro"], run=mk("C03", ["roomy", "awaited", "ttl", "ttlchain", "general"], 250, 4000), components=["store", "weights", "admission", "ticker", "api", "queue_worker", "time"],
                 assumptions=["partial: phase-contiguous schedules; 'no memory pressure' is stated per executed put (it fits the free space)"]),
-    "C04": dict(module="C04", modules=["C04", "C04_micro"], run=mk("C04", ["general", "ttl", "awaited", "queue1", "expired"], 270, 4000, extra=micro_extra("C04", stress2_extra("C04"))), components=["store", "api", "queue_worker", "weights", "ticker"]),
+    "C04": dict(module="C04", modules=["C04", "C04_micro"], run=mk("C04", ["general", "ttl", "awaited", "queue1", "expired"], 270, 4000, extra=micro_extra("C04", order_extra("C04", stress2_extra("C04")))), components=["store", "api", "queue_worker", "weights", "ticker"]),
     "C05": dict(module="C05", modules=["C05", "C05_micro", "C05_ledger"], run=mk("C05", ["general", "queue1", "ttl", "evict", "evict2"], 250, 4000, extra=micro_extra("C05", stress_quiescent_extra("C05", stress2_extra("C05")))), components=["weights", "store", "api", "queue_worker", "ticker", "admission"]),
     "C06": dict(module="C06", run=mk("C06", ["evict2", "evict", "general"], 270, 4000, extra=kernel_extra("C06", ["sampled_key_cmp", "is_space_available_for"])), components=["admission", "weights", "sketch", "tinylfu", "store"]),
     "C07": dict(module="C07", modules=["C07", "C07_micro"], run=mk("C07", ["general", "ttl", "awaited", "expired"], 260, 4000, extra=micro_extra("C07", stress2_extra("C07", "nottl"), profiles=("general", "ttl", "awaited", "queue1"))), components=["store", "api", "time", "queue_worker"]),
